@@ -24,7 +24,7 @@ CLAIMED.update({
              "recently used ones in recency order, the list+map implementation refines it, accesses are confined to the "
              "caller's cache. The real library runs every request sequence up to length 4 (quick) / 6 (thorough) over 6-length "
              "alphabets for the complex and the real family, each in a fresh thread, plus random histories over 40 lengths with "
-             "long-lived plan objects, in builds with cache size 4 (and 1, 2 thorough); the hook reports each cache access with the "
+             "long-lived plan objects (and the same transforms on subnormal-range data), in builds with cache size 4 and 1 (and 2 thorough); the hook reports each cache access with the "
              "key list after it and TLC steps the model with the observed accesses, checking key lists, capacity, ownership "
              "and that every result equals the fresh-thread result bit for bit.",
         note="Trusted: TLC, PlanCache.tla, the DSPLIB_VERIF hook in lib/fft/fft.cpp (reports keys after each access), the "
@@ -61,7 +61,8 @@ CLAIMED.update({
              "coprime L/M <= 6 (quick) / 9 (thorough) under all framings. Real code: every coprime L/M <= 8 (quick) / 16 + "
              "audio ratios (thorough), symmetric integer h with power-of-two sum, impulse and random inputs over two calls, "
              "classes and FIRResampler wrapper with unreduced ratios; TLC infers the phase at the first call and holds it; "
-             "counts and rejections; resample(): length rule, identity for p=q, alignment of an analytic Gaussian probe.",
+             "counts and rejections (1:1 included: only the wrapper bypasses); resample(): length rule, identity for p=q, alignment of an analytic "
+             "Gaussian probe, and a second call at the same ratio independent of the first (bit for bit).",
         note="Trusted: TLC, Multirate.tla, driver encoding (outputs scaled by sum(h)); analytic probe for the alignment clause. "
              "Default-designed filters are covered by prefix mode of C06 and the alignment probe only.",
         technique="TLA+ multirate chain spec + TLC MC; trace validation with phase inferred by TLC",
